@@ -83,6 +83,10 @@ void vp_rt_observe(const char* id, u64 v);
  *   1 = open, main query: region assumed away
  *   2 = open, region query: only the region */
 #include "vp_kf.h"
+#ifdef VP_KF_IGNORE
+#define VP_KNOWN(sid, id, c) ((void)(c))
+#else
 #define VP_KNOWN(sid, id, c) do { if (VP_KF_MODE_##sid == 1) VP_ASSUME(!(c)); else if (VP_KF_MODE_##sid == 2) VP_ASSUME(c); } while (0)
+#endif
 
 #endif
